@@ -866,6 +866,94 @@ func init() {
 				}
 			}
 		}
+		// a channel that is sent on must be closed, if at all, by the function that sends on it: closing it from
+		// another function (another goroutine) makes a concurrent send panic ("send on closed channel")
+		sendersOf := map[string]map[string]bool{} // channel element type -> functions sending on such a channel
+		// channels are identified by how they are reached: the struct field that carries them, the make(chan)
+		// they come from when that is in the same function, otherwise (a channel kept in an atomic.Value, a
+		// parameter) their element type
+		var chanKeyIn func(f *ssa.Function, v ssa.Value) string
+		chanKeyIn = func(f *ssa.Function, v ssa.Value) string {
+			switch c := v.(type) {
+			case *ssa.ChangeType:
+				return chanKeyIn(f, c.X)
+			case *ssa.MakeChan:
+				return fmt.Sprintf("local:%s:%d", relFuncName(f), c.Pos())
+			case *ssa.Field:
+				if k, ok := keyOf(c.X.Type(), c.Field); ok {
+					return fmt.Sprintf("field:%s#%d", k.st, k.idx)
+				}
+			case *ssa.UnOp:
+				if fa, ok := c.X.(*ssa.FieldAddr); ok {
+					if k, ok := keyOf(fa.X.Type(), fa.Field); ok {
+						return fmt.Sprintf("field:%s#%d", k.st, k.idx)
+					}
+				}
+			}
+			if ch, ok := v.Type().Underlying().(*types.Chan); ok {
+				return "type:" + typeKey(ch.Elem())
+			}
+			return ""
+		}
+		for _, f := range funcs {
+			if !inScope(f) {
+				continue
+			}
+			for _, b := range f.Blocks {
+				for _, ins := range b.Instrs {
+					switch s := ins.(type) {
+					case *ssa.Send:
+						if k := chanKeyIn(f, s.Chan); k != "" {
+							if sendersOf[k] == nil {
+								sendersOf[k] = map[string]bool{}
+							}
+							sendersOf[k][relFuncName(f)] = true
+						}
+					case *ssa.Select:
+						for _, stt := range s.States {
+							if stt.Dir == types.SendOnly {
+								if k := chanKeyIn(f, stt.Chan); k != "" {
+									if sendersOf[k] == nil {
+										sendersOf[k] = map[string]bool{}
+									}
+									sendersOf[k][relFuncName(f)] = true
+								}
+							}
+						}
+					}
+				}
+			}
+		}
+		for _, f := range funcs {
+			if !inScope(f) {
+				continue
+			}
+			ord := 0
+			for _, b := range f.Blocks {
+				for _, ins := range b.Instrs {
+					c, ok := ins.(*ssa.Call)
+					if !ok {
+						continue
+					}
+					bi, ok := c.Call.Value.(*ssa.Builtin)
+					if !ok || bi.Name() != "close" || len(c.Call.Args) != 1 {
+						continue
+					}
+					k := chanKeyIn(f, c.Call.Args[0])
+					var others []string
+					for fn := range sendersOf[k] {
+						if fn != relFuncName(f) {
+							others = append(others, fn)
+						}
+					}
+					sort.Strings(others)
+					pos := l.prog.Fset.Position(c.Pos())
+					obs = append(obs, tableOb{name: fmt.Sprintf("%s#close:%s#%d", pc.ID, relFuncName(f), ord), ok: len(others) == 0,
+						what: fmt.Sprintf("%s closes the channel %s at %s:%d while %s send(s) on it: a send racing with the close panics", relFuncName(f), k, filepath.Base(pos.Filename), pos.Line, strings.Join(others, ", "))})
+					ord++
+				}
+			}
+		}
 		obs = append(obs, tableOb{name: pc.ID + "#send:sites", ok: len(obs) >= 4, what: fmt.Sprintf("only %d channel sends found in kmipserver and kmipclient (%d unconditional): the check would be vacuous", len(obs), plain)})
 		er := tableResult(pc, obs, replayDir, []string{
 			"channel sends: structural rule over go/ssa of kmipserver and kmipclient (selects with an alternative; buffered channels found through the struct field that carries them); that at most one value is sent on a buffered channel of capacity 1 is not checked; receives and other blocking operations are not covered",
